@@ -241,7 +241,7 @@ def scenarios(tier: str) -> tuple[list[C06Scenario], list[C06Scenario]]:
                 user += [(10.0, 'delete', 'a'), (11.0, 'status', 'a', 1)]
             sc = C06Scenario(handlers=handlers, user=user, settings=st, horizon=50.0, variant=variant)
             base.append(sc)
-            if variant in ('foreign', 'foreign2', 'toggle', 'toggle-quiet', 'toggle-back') and d1 != ['perm'] and d2 != ['temp', 'ok']:
+            if variant in ('foreign', 'foreign2', 'toggle', 'toggle-quiet') and d1 != ['perm'] and d2 != ['temp', 'ok']:
                 deep.append(sc)
     # F2: daemons and a sleeping timer
     for reaction, backoff, timeout in itertools.product(['obeys', 'cancel', 'ignore'], [None, 2.0], [None, 3.0]):
@@ -267,10 +267,12 @@ def scenarios(tier: str) -> tuple[list[C06Scenario], list[C06Scenario]]:
 
 def run(tier: str, seed: int) -> CheckResult:
     base, deep = scenarios(tier)
+    # the release of a marked object against a label that goes off and on again: small enough to complete bound 2 always
+    relabel = [s for s in base if s.params.get('variant') == 'toggle-back' and s.params['handlers'][1]['script'] != ['ok']]
     if tier == 'quick':
-        groups = [('all', base, 1, 60.0), ('foreign+toggle', deep, 2, 30.0)]
+        groups = [('all', base, 1, 60.0), ('foreign+toggle', deep, 2, 30.0), ('release-vs-relabel', relabel, 2, 60.0)]
     else:
-        groups = [('all', base, 2, 700.0), ('foreign+toggle', deep, 3, 500.0)]
+        groups = [('all', base, 2, 700.0), ('foreign+toggle', deep, 3, 500.0), ('release-vs-relabel', relabel, 3, 400.0)]
     stats, viols, info, nscen = run_groups(groups, seed=seed)
     return CheckResult(
         prop='C06', tier=tier, seed=seed, stats=stats, violations=viols, scenarios=nscen,
